@@ -6,14 +6,16 @@ Pack: executable models of `solvor/knapsack.py` (`solve_knapsack`) and `solvor/b
 
 Every algorithmic part is written once over a record `Ops α` of scalar operations and instantiated
 at `Rat` (`ratOps`: what the theorems talk about, exact arithmetic) and at `Float` (`floatOps`: the
-same IEEE doubles CPython computes with; bit-level mirror used for R_trace).  The parts that exist
-only in floating point (the weight scaling of `_to_int_capacity` / `_scaled`, the `+ 1e-9` weight
-re-check) are `Float` functions.  No Mathlib imports.
+same IEEE doubles CPython computes with; bit-level mirror used for R_trace).  This includes the
+front end of `solve_knapsack` (`_to_int_capacity`, `_scaled`, the `+ 1e-9` weight re-check,
+`_greedy_fallback`): its tolerances are a record `KConsts α`, read from the source for the
+`Float` instance and left as parameters of the theorems for the `Rat` instance.  No Mathlib imports.
 -/
 namespace Solvor.Pack
 open Solvor.Gen (Status)
 
-/-- Scalar operations the algorithms use (`lt`/`le`/`isZero` are the Python `<`, `<=`, `== 0`). -/
+/-- Scalar operations the algorithms use (`lt`/`le`/`isZero` are the Python `<`, `<=`, `== 0`;
+`isInt v` is `v == int(v)`, `floorNat x` is `floor(x)` = `int(x)` for `x ≥ 0`). -/
 structure Ops (α : Type) where
   zero : α
   add : α → α → α
@@ -22,12 +24,23 @@ structure Ops (α : Type) where
   lt : α → α → Bool
   le : α → α → Bool
   isZero : α → Bool
+  mul : α → α → α
+  abs : α → α
+  ofNat : Nat → α
+  floorNat : α → Nat
+  isInt : α → Bool
 
 def ratOps : Ops Rat :=
-  ⟨0, (· + ·), (· - ·), (· / ·), fun a b => decide (a < b), fun a b => decide (a ≤ b), fun a => decide (a = 0)⟩
+  { zero := 0, add := (· + ·), sub := (· - ·), div := (· / ·),
+    lt := fun a b => decide (a < b), le := fun a b => decide (a ≤ b), isZero := fun a => decide (a = 0),
+    mul := (· * ·), abs := fun a => if a < 0 then -a else a, ofNat := fun n => (n : Rat),
+    floorNat := fun a => a.floor.toNat, isInt := fun a => decide ((a.floor : Rat) = a) }
 
 def floatOps : Ops Float :=
-  ⟨0.0, (· + ·), (· - ·), (· / ·), fun a b => decide (a < b), fun a b => decide (a ≤ b), fun a => a == 0.0⟩
+  { zero := 0.0, add := (· + ·), sub := (· - ·), div := (· / ·),
+    lt := fun a b => decide (a < b), le := fun a b => decide (a ≤ b), isZero := fun a => a == 0.0,
+    mul := (· * ·), abs := Float.abs, ofNat := Float.ofNat,
+    floorNat := fun a => a.floor.toUInt64.toNat, isInt := fun a => a == a.floor }
 
 /-! ## Knapsack: the integer-capacity DP of `solve_knapsack` -/
 
@@ -105,69 +118,104 @@ def greedyFallback (items : List (α × α)) (cap : α) (minimize : Bool) : List
 
 end Knap
 
-/-! ### The floating-point front end of `solve_knapsack` (repaired code, see
-`proposed_fixes/C16_*`): `_to_int_capacity`, `_scaled`, the weight re-check. -/
+/-! ### The front end of `solve_knapsack` (repaired code): `_to_int_capacity`, `_scaled`, the
+weight re-check, the status rule -/
+
+/-- the literals of `knapsack.py` the model is parameterised by -/
+structure KConsts (α : Type) where
+  maxCapacity : α     -- `max_capacity = 100000`
+  maxScale : α        -- `1000.0`
+  weightTol : α       -- `total_weight > capacity + 1e-9`
+  scaleTol : α        -- `abs(s - nearest) <= 1e-9`
+  half : α            -- `floor(s + 0.5)`
+  one : α             -- the scale `1.0`
 
 open Solvor.Gen.Pack in
-def fMaxCapacity : Float := Float.ofInt knapMaxCapacity
-open Solvor.Gen.Pack in
-def fMaxScale : Float := Float.ofBits knapMaxScale_bits
-open Solvor.Gen.Pack in
-def fWeightTol : Float := Float.ofBits knapWeightTol_bits
-/-- the `1e-9` of `_scaled` (bit pattern of the double `1e-09`) -/
-def fScaleTol : Float := Float.ofBits 4472406533629990549
+/-- the constants as the source has them now (regenerated by `harness/kernels.py`) -/
+def floatConsts : KConsts Float :=
+  { maxCapacity := Float.ofInt knapMaxCapacity, maxScale := Float.ofBits knapMaxScale_bits,
+    weightTol := Float.ofBits knapWeightTol_bits, scaleTol := Float.ofBits knapScaleTol_bits,
+    half := Float.ofBits knapHalf_bits, one := 1.0 }
 
-/-- `int(x)` for `x ≥ 0` -/
-def fTrunc (x : Float) : Nat := x.toUInt64.toNat
-/-- `v == int(v)` -/
-def fIsInt (x : Float) : Bool := x == x.floor
+section Front
+variable {α : Type} (o : Ops α) (c : KConsts α)
+
 /-- Python `min(a, b)` -/
-def pyMin (a b : Float) : Float := if b < a then b else a
+def pyMin (a b : α) : α := if o.lt b a then b else a
 
 /-- `_scaled(x, scale)`: `x * scale` as an integer and whether nothing but float noise was dropped. -/
-def fScaled (x scale : Float) : Nat × Bool :=
-  let s := x * scale
-  let nearest := Float.floor (s + 0.5)
-  if Float.abs (s - nearest) ≤ fScaleTol then (fTrunc nearest, true) else (fTrunc s, false)
+def scaled (x scale : α) : Nat × Bool :=
+  let s := o.mul x scale
+  let nearest := o.floorNat (o.add s c.half)
+  if o.le (o.abs (o.sub s (o.ofNat nearest))) c.scaleTol then (nearest, true) else (o.floorNat s, false)
 
 /-- `_to_int_capacity(capacity, weights)` -/
-def fToIntCapacity (cap : Float) (wts : List Float) : Nat × Float :=
-  if (cap :: wts.filter (fun w => 0.0 < w)).all fIsInt then (fTrunc cap, 1.0)
-  else if cap ≤ 0.0 then (0, 1.0)
+def toIntCapacity (cap : α) (wts : List α) : Nat × α :=
+  if (cap :: wts.filter (fun w => o.lt o.zero w)).all o.isInt then (o.floorNat cap, c.one)
+  else if o.le cap o.zero then (0, c.one)
   else
-    let scale := pyMin (fMaxCapacity / cap) fMaxScale
-    ((fScaled cap scale).1, scale)
+    let scale := pyMin o (o.div c.maxCapacity cap) c.maxScale
+    ((scaled o c cap scale).1, scale)
 
-structure KnapRes where
+/-- the loop building `int_weights` and `lossless` -/
+def scaleWeights (wts : List α) (scale : α) : List (Nat × Bool) :=
+  wts.map fun w =>
+    if o.lt o.zero w then
+      let r := scaled o c w scale
+      (max 1 r.1, r.2 && decide (1 ≤ r.1))
+    else (0, true)
+
+structure KnapRes (α : Type) where
   status : Status
   sel : List Nat
+  objective : α
   fallback : Bool
   lossless : Bool
   intCap : Nat
   intWeights : List Nat
 
-/-- Mirror of `solve_knapsack(values, weights, capacity, minimize=…)` on doubles.
-`Except.error` = the exception class raised. -/
-def knapMirror (vals wts : List Float) (cap : Float) (minimize : Bool) : Except String KnapRes :=
-  if vals.length = 0 then .ok ⟨.OPTIMAL, [], false, true, 0, []⟩
+/-- CPython 3.12 `sum(...)` over items `(value, is a Python int)`, starting from the int `0`: ints
+(and the first float, which leaves the integer fast path through a plain `int + float`) are added
+plainly, later floats by Neumaier's compensated step; the compensation is added at the end when it is
+non-zero.  In exact arithmetic the compensation stays `0` and this is the plain sum. -/
+def pySum (xs : List (α × Bool)) : α :=
+  let r := xs.foldl (fun (st : α × α × Bool) (p : α × Bool) =>
+      let (f, c, started) := st
+      if p.2 then (o.add f p.1, c, started)
+      else if !started then (o.add f p.1, c, true)
+      else
+        let t := o.add f p.1
+        if o.le (o.abs p.1) (o.abs f) then (t, o.add c (o.add (o.sub f t) p.1), true)
+        else (t, o.add c (o.add (o.sub p.1 t) f), true)) (o.zero, o.zero, false)
+  if o.isZero r.2.1 then r.1 else o.add r.1 r.2.1
+
+/-- `sum(xs[i] for i in selected)` -/
+def sumAt (xs : List (α × Bool)) (sel : List Nat) : α := pySum o (sel.map fun i => xs.getD i (o.zero, true))
+
+/-- Mirror of `solve_knapsack(values, weights, capacity, minimize=…)`.
+`vInt`/`wInt` say which inputs are Python ints (only `sum` cares).  `Except.error` = the exception
+class raised. -/
+def knapMirror (vals wts : List α) (vInt wInt : List Bool) (cap : α) (minimize : Bool) :
+    Except String (KnapRes α) :=
+  if vals.length = 0 then .ok ⟨.OPTIMAL, [], o.zero, false, true, 0, []⟩
   else if wts.length ≠ vals.length then .error "ValueError"
-  else if cap < 0.0 then .error "ValueError"
+  else if o.lt cap o.zero then .error "ValueError"
   else
-    let sign : Float := if minimize then -1.0 else 1.0
-    let (intCap, scale) := fToIntCapacity cap wts
-    let sc := wts.map fun w => if 0.0 < w then
-        let r := fScaled w scale
-        (max 1 r.1, r.2 && decide (1 ≤ r.1))
-      else (0, true)
-    let lossless := (fScaled cap scale).2 && sc.all (·.2)
+    let ic := toIntCapacity o c cap wts
+    let sc := scaleWeights o c wts ic.2
+    let lossless := (scaled o c cap ic.2).2 && sc.all (·.2)
     let intW := sc.map (·.1)
-    let items := intW.zip (vals.map fun v => sign * v)
-    let sel := (knapInt floatOps items intCap).1
-    let totalWeight := sel.foldl (fun acc i => acc + wts.getD i 0.0) 0.0
-    if cap + fWeightTol < totalWeight then
-      .ok ⟨.FEASIBLE, greedyFallback floatOps (wts.zip vals) cap minimize, true, lossless, intCap, intW⟩
+    let items := intW.zip (vals.map fun v => if minimize then o.sub o.zero v else v)
+    let sel := (knapInt o items ic.1).1
+    let valsT := vals.zip (vInt ++ List.replicate vals.length false)   -- missing flags: float
+    let wtsT := wts.zip (wInt ++ List.replicate wts.length false)
+    if o.lt (o.add cap c.weightTol) (sumAt o wtsT sel) then
+      let fb := greedyFallback o (wts.zip vals) cap minimize
+      .ok ⟨.FEASIBLE, fb, sumAt o valsT fb, true, lossless, ic.1, intW⟩
     else
-      .ok ⟨if lossless then .OPTIMAL else .FEASIBLE, sel, false, lossless, intCap, intW⟩
+      .ok ⟨if lossless then .OPTIMAL else .FEASIBLE, sel, sumAt o valsT sel, false, lossless, ic.1, intW⟩
+
+end Front
 
 /-! ### Knapsack, spec side (exact rationals): checker and definitional optimum.
 Items are `(weight, value)`. -/
@@ -295,5 +343,60 @@ def minBins (sizes : List Rat) (cap : Rat) : Nat × List Nat :=
   let order := (List.range sizes.length).mergeSort fun i j => decide (sizes.getD j 0 ≤ sizes.getD i 0)
   let r := minBinsGo cap (order.map fun i => (i, sizes.getD i 0)) [] [] (sizes.length + 1, [])
   (r.1, (List.range sizes.length).map fun i => (r.2.lookup i).getD 0)
+
+/-! ### Bin packing: the proved optimum -/
+
+/-- All ways of taking one bin out of a list of remaining capacities, skipping a capacity value
+that was already offered (bins with equal remaining capacity are interchangeable). -/
+def choices : List Rat → List Rat → List (Rat × List Rat)
+  | _, [] => []
+  | pre, r :: post =>
+    (if pre.contains r then [] else [(r, pre.reverse ++ post)]) ++ choices (r :: pre) post
+
+/-- Definitional enumerator: can the items (in the given order) be packed into the open bins
+`bins` (remaining capacities) plus at most `m` fresh bins of capacity `cap`?  Every item is tried
+in every open bin (one per distinct remaining capacity) and in one fresh bin. -/
+def packsInto (cap : Rat) : List Rat → List Rat → Nat → Bool
+  | [], _, _ => true
+  | s :: rest, bins, m =>
+    (choices [] bins).any (fun p => decide (s ≤ p.1) && packsInto cap rest ((p.1 - s) :: p.2) m) ||
+    (decide (0 < m) && decide (s ≤ cap) && packsInto cap rest ((cap - s) :: bins) (m - 1))
+
+/-- least `m' ≥ m` with `p m'`, looking at most `fuel` steps ahead -/
+def leastFrom (p : Nat → Bool) : Nat → Nat → Nat
+  | m, 0 => m
+  | m, fuel + 1 => if p m then m else leastFrom p (m + 1) fuel
+
+/-- items largest first (any order would do for the theorem; this one prunes best) -/
+def itemsDesc (sizes : List Rat) : List Nat :=
+  (List.range sizes.length).mergeSort fun i j => decide (sizes.getD j 0 ≤ sizes.getD i 0)
+
+/-- Proved lower bound on the number of bins of any valid packing (`minBinsP_le`): the least
+`m ≥ ⌈Σ/C⌉` for which the enumerator finds a packing. -/
+def minBinsP (sizes : List Rat) (cap : Rat) : Nat :=
+  let lb := (sizes.sum / cap).ceil.toNat
+  leastFrom (fun m => packsInto cap ((itemsDesc sizes).map fun i => sizes.getD i 0) [] m) lb (sizes.length - lb)
+
+/-! ### `solve_bin_pack`: algorithm-name parsing -/
+
+/-- `algo = algorithm.lower().replace("_", "-")`, the `-decreasing` suffix, the four accepted
+names; result `(use_best_fit, decreasing)` or `none` for the `ValueError`. (ASCII names.) -/
+def parseAlgo (algorithm : String) : Option (Bool × Bool) :=
+  let algo := (algorithm.toLower).replace "_" "-"
+  let decreasing := algo.endsWith "-decreasing"
+  let algo := if decreasing then algo.replace "-decreasing" "" else algo
+  if algo == "first-fit" || algo == "ff" then some (false, decreasing)
+  else if algo == "best-fit" || algo == "bf" then some (true, decreasing)
+  else none
+
+/-- `solve_bin_pack(item_sizes, bin_capacity, algorithm=…)` with the checks in source order:
+empty input, capacity, item sizes, algorithm name. -/
+def packNamed {α : Type} (o : Ops α) (sizes : List α) (cap : α) (algorithm : String) : Except String PackRes :=
+  if sizes.length = 0 then .ok ⟨.OPTIMAL, [], 0⟩
+  else if o.le cap o.zero then .error "ValueError"
+  else if sizes.any (fun s => o.lt cap s || o.lt s o.zero) then .error "ValueError"
+  else match parseAlgo algorithm with
+    | none => .error "ValueError"
+    | some (useBest, decreasing) => pack o sizes cap useBest decreasing
 
 end Solvor.Pack
